@@ -155,6 +155,9 @@ impl Buildpack for Bp {
                         let mut pb = ProcessBuilder::new(jstr(p, "type").parse().expect("type"), jarr(p, "command").iter().map(|x| x.as_str().unwrap().to_string()).collect::<Vec<_>>());
                         pb.args(jarr(p, "args").iter().map(|x| x.as_str().unwrap().to_string()).collect::<Vec<_>>());
                         pb.default(p.get("default").and_then(Value::as_bool).unwrap_or(false));
+                        if let Some(wd) = p.get("wd").and_then(Value::as_str) {
+                            pb.working_directory(libcnb::data::launch::WorkingDirectory::Directory(std::path::PathBuf::from(wd)));
+                        }
                         pb.build()
                     }).collect();
                     let labels: Vec<libcnb::data::launch::Label> = jarr(l, "labels").iter().map(|kv| {
